@@ -248,6 +248,10 @@ fn boolean_part(run: &Run, k_max: usize, small_full: bool, full_vals: bool) -> A
         // ordering comparisons whose operands can be Nothing or non-numbers: `!(x < y)` is not `x >= y`
         ["length(@.p)<2".into(), "count(@.q)>=1".into(), "@.r>0".into()],
         ["length(@.p)>=length(@.q)".into(), "1<=length(@.r)".into(), "value(@.q)<=1".into()],
+        // comparisons over the same operands that look like each other's complement but are not (both are false when
+        // an operand is nothing or not comparable): `p<1 || p>=1` is not a tautology
+        ["@.p<1".into(), "@.p>=1".into(), "@.p!=1".into()],
+        ["@.p>@.q".into(), "@.p<=@.q".into(), "@.p==@.q".into()],
     ];
     let cells_collide: Vec<Value> = {
         let mut v = vec![];
